@@ -2,6 +2,7 @@
 from __future__ import annotations
 
 import ast
+import re
 
 from ..core import AnalysisError, norm_stmt_text, unparse
 from ..report import Finding, Result
@@ -123,29 +124,38 @@ def gaussian_rules(repo, res):
             res.oblige('D2', f'{name}: {want}', ok, nontrivial=True)
             if not ok:
                 res.add(Finding('D2', g.fullname, want, g.loc, f'{name}: the input mask / error mask must be OR-ed into the data mask', {}))
-    # both marginals are treated alike
-    loops = [n for n in ast.walk(f.node) if isinstance(n, (ast.For, ast.ListComp))]
+    # both marginals are treated alike: every loop/comprehension over the axis index covers (0, 1)
     bad = []
+    n_axis_iters = 0
     for n in ast.walk(f.node):
-        it = None
+        it = tgt = None
         if isinstance(n, ast.For):
-            it = n.iter
+            it, tgt, scope = n.iter, n.target, n
         elif isinstance(n, ast.comprehension):
-            it = n.iter
-        if it is None:
+            it, tgt, scope = n.iter, n.target, getattr(n, '_parent', None)
+        if it is None or not isinstance(tgt, ast.Name) or scope is None:
             continue
-        if isinstance(it, (ast.Tuple, ast.List)) and all(isinstance(e, ast.Constant) for e in it.elts):
-            vals = [e.value for e in it.elts]
-            if set(vals) <= {0, 1} and sorted(vals) != [0, 1]:
-                bad.append(n)
-        if isinstance(it, ast.Call) and unparse(it.func, 0) == 'range' and it.args:
-            a = [x.value if isinstance(x, ast.Constant) else None for x in it.args]
-            if a in ([1, 2], [1], [0, 1]):
-                bad.append(n)
-    res.oblige('T-MIRROR', 'centroid_1dg: every per-axis loop covers both axes (0, 1)', not bad, nontrivial=True)
-    for n in bad:
-        res.add(Finding('T-MIRROR', f.fullname, 'per-axis loop', f'{f.module.relpath}:{getattr(n, "lineno", f.node.lineno)}',
-                        'centroid_1dg: a per-axis loop covers only one of the two marginals, so rows and columns are treated differently', {}))
+        v = tgt.id
+        is_axis = False
+        for c in ast.walk(scope):
+            if isinstance(c, ast.keyword) and c.arg == 'axis' and isinstance(c.value, ast.Name) and c.value.id == v:
+                is_axis = True
+            if isinstance(c, ast.Subscript) and isinstance(c.slice, ast.Name) and c.slice.id == v \
+                    and re.match(r'^(xy_|bad_idx)', unparse(c.value, 0)):
+                is_axis = True
+        if not is_axis:
+            continue
+        n_axis_iters += 1
+        if nf(it) not in ('(0,1)', 'range(2)', 'range(data.ndim)', '[0,1]'):
+            bad.append((n, it))
+    res.oblige('T-MIRROR', f'centroid_1dg: each of the {n_axis_iters} per-axis loops covers both axes (0, 1)', not bad and n_axis_iters >= 3,
+               nontrivial=True, sample={'axis_loops': n_axis_iters})
+    if n_axis_iters < 3:
+        raise AnalysisError('centroid_1dg: per-axis loops not found')
+    for n, it in bad:
+        res.add(Finding('T-MIRROR', f.fullname, f'per-axis loop over {unparse(it)}', f'{f.module.relpath}:{getattr(it, "lineno", f.node.lineno)}',
+                        f'centroid_1dg: a per-axis loop iterates `{unparse(it)}` instead of both axes (0, 1), so rows and columns '
+                        f'(x and y marginals) are treated differently and the result does not commute with transposition', {}))
 
 
 def run(repo, tier):
